@@ -151,6 +151,16 @@ type c10info struct {
 	pre, post  fsSnap
 	roWritable bool
 	snapErr    string
+	// oldContent: content of the pre-existing target (kind existing) when it is not the default
+	// text; the streams save-over-related make it from the output the File is going to have
+	oldContent string
+	// skip (stream after-failed-render; nil elsewhere): index of every operation that FAILS by
+	// construction -> how the reference run replaces it: "drop" (the call never happened; the
+	// generator guarantees that the failed call cannot have registered an import) or "raw" (a
+	// File.Render that fails in go/format is replaced by the same render under NoFormat,
+	// which registers the same imports and does not fail).  Every other observing operation
+	// must show exactly what it shows in that reference run.
+	skip map[int]string
 }
 
 func (p *c10) root() string {
@@ -204,7 +214,11 @@ func (p *c10) fixtures(kind string, info *c10info) {
 	old("bystander.txt", "not a target\n")
 	switch kind {
 	case "existing", "parentfile":
-		old("existing.go", fmt.Sprintf("// Code generated by run %d. DO NOT EDIT.\n\npackage previous\n\nvar Good = %d\n", p.ncase, p.ncase))
+		if info.oldContent != "" {
+			old("existing.go", info.oldContent)
+		} else {
+			old("existing.go", fmt.Sprintf("// Code generated by run %d. DO NOT EDIT.\n\npackage previous\n\nvar Good = %d\n", p.ncase, p.ncase))
+		}
 	case "rodir":
 		must(os.Mkdir(filepath.Join(dir, "ro"), 0755))
 		must(os.Chmod(filepath.Join(dir, "ro"), 0555))
@@ -519,7 +533,377 @@ func (p *c10) Generate(r *rand.Rand, t string) []*Case {
 		}
 		out = append(out, p.build(r, s, "random"))
 	}
+	// added after the older streams so that their draws (and fixture numbers) are unchanged
+	n = tier(t, 240, 12000)
+	for i := 0; i < n; i++ {
+		out = append(out, p.afterFailed(r))
+	}
+	reps = tier(t, 12, 600)
+	for rep := 0; rep < reps; rep++ {
+		for _, rel := range c10Relations {
+			for _, nf := range []bool{false, true} {
+				out = append(out, p.saveOver(r, rel, nf))
+			}
+		}
+	}
 	return out
+}
+
+// ---- stream after-failed-render: what a failed call leaves behind ----
+
+// c10QualPaths: the paths of all Quals below n.
+func c10QualPaths(n term.Node, into map[string]bool) {
+	switch x := n.(type) {
+	case *term.Group:
+		if x.Method == "Qual" {
+			into[x.Path] = true
+		}
+		for _, it := range x.Items {
+			c10QualPaths(it, into)
+		}
+	case *term.Stmt:
+		if x == nil {
+			return
+		}
+		for _, it := range x.Items {
+			c10QualPaths(it, into)
+		}
+	case *term.Dict:
+		for _, p := range x.Pairs {
+			c10QualPaths(p[0], into)
+			c10QualPaths(p[1], into)
+		}
+	}
+}
+
+// c10BrokenFragment: a statement that go/format rejects inside a fragment (no Quals).
+func c10BrokenFragment(r *rand.Rand) *term.Stmt {
+	switch r.Intn(4) {
+	case 0:
+		return term.S(term.Id("x"), term.Op(":="))
+	case 1:
+		return term.S(term.Id("x"), term.Op("="), term.Op(")"))
+	}
+	return c10Broken(r)
+}
+
+// afterFailed builds one sequence on ONE File in which a call FAILS and later calls on the
+// same File must write exactly their own output:
+//
+//	rcode-fmterr      Statement/Group.RenderWithFile of a fragment go/format rejects
+//	rcode-panic       ... of a fragment holding a Lit of an unsupported type
+//	                  (either of them sometimes twice), then RenderWithFile of a VALID
+//	                  fragment with the same File, then File.Render or File.Save
+//	filerender-fmterr File.Render of a File whose body holds a broken statement, then (nothing
+//	                  added) RenderWithFile of a valid fragment, sometimes a second one,
+//	                  sometimes File.Render again under NoFormat (succeeds: the raw text)
+//	filerender-panic  File.Render of a File to which a statement with a bad literal was added,
+//	                  then RenderWithFile of a valid fragment (sometimes two)
+//
+// A failing call that the reference run DROPS must not be able to register an import (a
+// failed render legitimately keeps the imports it registered: the model says so too): its
+// tree either holds no Qual at all, or only Quals of paths that a successful warm-up
+// File.Render of a body referencing them has registered before (tag failing-quals=).  A
+// File.Render that fails in go/format over a body with Quals is replaced, in the reference
+// run, by the same render under NoFormat.
+//
+// NonTrivial: by construction the case holds a failing call followed by a call that succeeds
+// (c10_test.go measures both on a whole quick run).
+func (p *c10) afterFailed(r *rand.Rand) *Case {
+	shape := pick(r, []string{"rcode-fmterr", "rcode-panic", "filerender-fmterr", "filerender-panic"})
+	withQuals := r.Intn(2) == 0
+	var paths []string
+	if withQuals {
+		paths = somePaths(r, 4)
+		for len(paths) == 0 {
+			paths = somePaths(r, 4)
+		}
+	}
+	g := &Gen{R: r, Paths: paths, NoBad: true}
+	h, _ := FileSetup(r, 0, SetupOpts{Paths: paths})
+	info := &c10info{tree: "after-failed", skip: map[int]string{}}
+	meta := map[string]interface{}{"c10": info}
+	tags := []string{"after-failed-render", "failed=" + shape}
+	nf := r.Intn(3) == 0
+
+	body := c10Stmts(r, g, "valid", true, true)
+	registered := map[string]bool{}
+	for _, st := range body {
+		h = append(h, hist.Op{Kind: "fadd", F: 0, Code: st})
+		c10QualPaths(st, registered)
+	}
+	var regPaths []string
+	for _, q := range sortedKeys(registered) {
+		regPaths = append(regPaths, q)
+	}
+	fragment := func(kind string, gg *Gen) term.Node {
+		group := r.Intn(2) == 0
+		sts := c10Stmts(r, gg, kind, false, !group)
+		if kind == "invalid" && r.Intn(2) == 0 {
+			// the broken statement of this stream instead of the one c10Stmts inserted
+			for i, st := range sts {
+				q := map[string]bool{}
+				c10QualPaths(st, q)
+				if len(st.Items) > 0 && !c10HasNamed(st) && len(q) == 0 {
+					sts[i] = c10BrokenFragment(r)
+					break
+				}
+			}
+		}
+		if group {
+			return c10GroupTarget(r, kind, sts)
+		}
+		return c10Join(sts)
+	}
+	validFragment := func() hist.Op {
+		return hist.Op{Kind: "rcode", F: 0, Code: fragment("valid", g)}
+	}
+	fail := func(op hist.Op, how string) {
+		info.skip[len(h)] = how
+		h = append(h, op)
+	}
+
+	switch shape {
+	case "rcode-fmterr", "rcode-panic":
+		// Quals of the failing fragment: only paths the warm-up render has registered
+		gf := &Gen{R: r, NoBad: true}
+		if withQuals && len(regPaths) > 0 {
+			h = append(h, hist.Op{Kind: "noformat", F: 0, Flag: r.Intn(3) == 0}, hist.Op{Kind: "render", F: 0})
+			gf.Paths = regPaths
+			tags = append(tags, "failing-quals=registered-by-warmup-render")
+		} else {
+			tags = append(tags, "failing-quals=none")
+		}
+		kind := "invalid"
+		if shape == "rcode-panic" {
+			kind = "badlit"
+			info.badlit = true
+		}
+		fail(hist.Op{Kind: "rcode", F: 0, Code: fragment(kind, gf)}, "drop")
+		if r.Intn(4) == 0 {
+			fail(hist.Op{Kind: "rcode", F: 0, Code: fragment(kind, gf)}, "drop")
+			tags = append(tags, "failed-twice")
+		}
+		h = append(h, validFragment())
+		h = append(h, hist.Op{Kind: "noformat", F: 0, Flag: nf})
+		if r.Intn(2) == 0 {
+			h = append(h, hist.Op{Kind: "render", F: 0})
+			tags = append(tags, "then=rcode+filerender")
+		} else {
+			tk := pick(r, []string{"new", "existing"})
+			p.fixtures(tk, info)
+			dir := info.dir
+			meta["savepath"] = func(sym string) string { return filepath.Join(dir, filepath.FromSlash(sym)) }
+			h = append(h, hist.Op{Kind: "save", F: 0, A: tk + ".go"})
+			tags = append(tags, "then=rcode+save", "target="+tk)
+		}
+	case "filerender-fmterr":
+		broken := c10Broken(r)
+		if r.Intn(4) == 0 {
+			broken = c10FileOnlyBroken(r)
+		}
+		h = append(h, hist.Op{Kind: "fadd", F: 0, Code: broken})
+		if r.Intn(3) == 0 {
+			h = append(h, hist.Op{Kind: "fadd", F: 0, Code: g.SimpleDecl(30)})
+		}
+		h = append(h, hist.Op{Kind: "noformat", F: 0, Flag: false})
+		how := "raw"
+		if !withQuals {
+			how = "drop"
+		}
+		tags = append(tags, "reference="+how)
+		fail(hist.Op{Kind: "render", F: 0}, how)
+		if r.Intn(4) == 0 {
+			fail(hist.Op{Kind: "render", F: 0}, how)
+			tags = append(tags, "failed-twice")
+		}
+		h = append(h, validFragment())
+		if r.Intn(2) == 0 {
+			h = append(h, validFragment())
+		}
+		if r.Intn(3) == 0 {
+			h = append(h, hist.Op{Kind: "noformat", F: 0, Flag: true}, hist.Op{Kind: "render", F: 0})
+			tags = append(tags, "then=rcode+noformat-filerender")
+		} else {
+			tags = append(tags, "then=rcode")
+		}
+	default: // filerender-panic
+		info.badlit = true
+		if len(regPaths) > 0 {
+			h = append(h, hist.Op{Kind: "noformat", F: 0, Flag: r.Intn(3) == 0}, hist.Op{Kind: "render", F: 0})
+			tags = append(tags, "failing-quals=registered-by-warmup-render")
+		} else {
+			tags = append(tags, "failing-quals=none")
+		}
+		h = append(h, hist.Op{Kind: "fadd", F: 0, Code: c10BadLitStmt(r)})
+		h = append(h, hist.Op{Kind: "noformat", F: 0, Flag: nf})
+		fail(hist.Op{Kind: "render", F: 0}, "drop")
+		if r.Intn(4) == 0 {
+			fail(hist.Op{Kind: "render", F: 0}, "drop")
+			tags = append(tags, "failed-twice")
+		}
+		h = append(h, validFragment())
+		if r.Intn(2) == 0 {
+			h = append(h, validFragment())
+		}
+		tags = append(tags, "then=rcode")
+	}
+	return &Case{Hist: h, Stream: "after-failed-render", Tags: tags, Meta: meta, NonTrivial: true}
+}
+
+func c10HasNamed(st *term.Stmt) bool {
+	for _, it := range st.Items {
+		if t, ok := it.(term.Tok); ok && t.Kind == "named" {
+			return true
+		}
+	}
+	return false
+}
+
+// ---- stream save-over-related: Save onto a file whose content is related to the output ----
+
+var c10Relations = []string{"existing-equal", "existing-extends-output", "existing-prefix-of-output", "existing-same-length"}
+
+// c10RenderNow renders File 0 of h with the implementation into a buffer (Generate time).
+func c10RenderNow(h hist.History) (out string, ok bool) {
+	defer func() {
+		if recover() != nil {
+			ok = false
+		}
+	}()
+	var h2 hist.History
+	for _, op := range h {
+		switch op.Kind {
+		case "render", "rcode", "rplain", "save", "imports":
+			continue
+		}
+		h2 = append(h2, op)
+	}
+	h2 = append(h2, hist.Op{Kind: "render", F: 0})
+	obs := hist.NewWorld().Exec(h2)
+	if len(obs) != 1 || obs[0].Kind != "write" || obs[0].Failed || obs[0].Out == "" {
+		return "", false
+	}
+	return obs[0].Out, true
+}
+
+// saveOver: File.Save of a valid File onto an EXISTING file whose content stands in the
+// relation rel to the output the Save must produce.  The output is not predicted: the File
+// (and a variant with one declaration more / less) is rendered with the implementation at
+// Generate time, when the fixtures are made:
+//
+//	existing-equal             the old file holds exactly the new output
+//	existing-extends-output    the new output is a proper prefix of the old file: the old file
+//	                           is the output of the same File with one more declaration
+//	                           (old-file=one-more-declaration) or the output followed by text
+//	existing-prefix-of-output  the old file is a proper prefix of the new output: the output
+//	                           of the same File without its last declaration, or a cut
+//	existing-same-length       as long as the output, 1..3 bytes (or all letters) differ
+//
+// After the Save the target must hold exactly the rendered output (oracle: the Save branch
+// of c10Judge).  NonTrivial: the relation holds between the fixture and what the File
+// renders (measured at Generate time; the tag is only given when it does).
+func (p *c10) saveOver(r *rand.Rand, rel string, nf bool) *Case {
+	paths := somePaths(r, 4)
+	g := &Gen{R: r, Paths: paths, NoBad: true}
+	h, _ := FileSetup(r, 0, SetupOpts{Paths: paths})
+	info := &c10info{tree: "valid"}
+	body := c10Stmts(r, g, "valid", true, true)
+	mk := func(sts []*term.Stmt) hist.History {
+		out := append(hist.History{}, h...)
+		for _, st := range sts {
+			out = append(out, hist.Op{Kind: "fadd", F: 0, Code: st})
+		}
+		return append(out, hist.Op{Kind: "noformat", F: 0, Flag: nf})
+	}
+	full := mk(body)
+	tags := []string{"entry=save", "tree=valid", fmt.Sprintf("noformat=%v", nf)}
+	out, ok := c10RenderNow(full)
+	how := ""
+	holds := false
+	if ok {
+		switch rel {
+		case "existing-equal":
+			info.oldContent, holds = out, true
+		case "existing-extends-output":
+			// a declaration without Quals: the import block stays as it is
+			more := append(append([]*term.Stmt{}, body...), term.S(term.Named("Var"), term.Id("ZLater"), term.Op("="), term.Lit(r.Intn(1000))))
+			if old, ok2 := c10RenderNow(mk(more)); ok2 && r.Intn(3) != 0 && strings.HasPrefix(old, out) && len(old) > len(out) {
+				info.oldContent, how = old, "one-more-declaration"
+			} else {
+				info.oldContent, how = out+pick(r, []string{"// trailing text of the previous generation\n", "var Old = 1\n", "}", "\x00", "\n"}), "output+text"
+			}
+			holds = true
+		case "existing-prefix-of-output":
+			if len(body) > 1 {
+				if old, ok2 := c10RenderNow(mk(body[:len(body)-1])); ok2 && r.Intn(3) != 0 && strings.HasPrefix(out, old) && len(old) < len(out) {
+					info.oldContent, how = old, "one-declaration-less"
+				}
+			}
+			if how == "" && len(out) > 1 {
+				info.oldContent, how = out[:1+r.Intn(len(out)-1)], "cut"
+			}
+			holds = how != ""
+		case "existing-same-length":
+			b := []byte(out)
+			flip := func(i int) {
+				switch c := b[i]; {
+				case c >= 'a' && c < 'z' || c >= 'A' && c < 'Z' || c >= '0' && c < '9':
+					b[i] = c + 1
+				default:
+					b[i] = 'z'
+				}
+			}
+			if r.Intn(4) == 0 {
+				for i := range b {
+					if b[i] >= 'a' && b[i] <= 'z' {
+						flip(i)
+					}
+				}
+				how = "all-letters"
+			} else {
+				k := 1 + r.Intn(3)
+				for j := 0; j < k; j++ {
+					switch r.Intn(3) {
+					case 0:
+						flip(len(b) - 1 - r.Intn(c10Min(len(b), 3))) // at the very end
+					case 1:
+						flip(r.Intn(c10Min(len(b), 10))) // at the very beginning
+					default:
+						flip(r.Intn(len(b)))
+					}
+				}
+				how = "few-bytes"
+			}
+			info.oldContent = string(b)
+			holds = len(info.oldContent) == len(out) && info.oldContent != out
+		}
+	}
+	if r.Intn(5) == 0 {
+		full = append(full, hist.Op{Kind: "render", F: 0})
+		tags = append(tags, "warmup-render")
+	}
+	p.fixtures("existing", info)
+	dir := info.dir
+	meta := map[string]interface{}{"c10": info, "savepath": func(sym string) string { return filepath.Join(dir, filepath.FromSlash(sym)) }}
+	full = append(full, hist.Op{Kind: "save", F: 0, A: "existing.go"})
+	if holds {
+		tags = append(tags, "target="+rel)
+		if how != "" {
+			tags = append(tags, "old-file="+how)
+		}
+	} else {
+		tags = append(tags, "target=existing") // the File did not render at Generate time: ordinary existing target
+	}
+	tags = append(tags, "cause=none")
+	return &Case{Hist: full, Stream: "save-over-related", Tags: tags, Meta: meta, NonTrivial: holds}
+}
+
+func c10Min(a, b int) int {
+	if a < b {
+		return a
+	}
+	return b
 }
 
 // Compare: the full projection (error class and bytes of every observation), plus the number
@@ -550,7 +934,11 @@ func (p *c10) Compare(c *Case, exp, got []hist.Obs) string {
 // c10Twin re-executes h[:i] and then operation i with a writer that does not fail, in a
 // fresh World that never touches the file system (every save becomes a File.Render into a
 // buffer).  forceRaw switches NoFormat on just before operation i.
-func c10Twin(h hist.History, i int, forceRaw bool) (o hist.Obs, ok bool) {
+//
+// skip (may be nil) names earlier operations that failed by construction (c10info.skip): the
+// reference run leaves them out ("drop") or replaces them by a render that cannot fail
+// ("raw"), so that it shows what operation i writes when the failure never happened.
+func c10Twin(h hist.History, i int, forceRaw bool, skip map[int]string) (o hist.Obs, ok bool) {
 	var h2 hist.History
 	conv := func(op hist.Op) hist.Op {
 		switch op.Kind {
@@ -561,8 +949,16 @@ func c10Twin(h hist.History, i int, forceRaw bool) (o hist.Obs, ok bool) {
 		}
 		return op
 	}
-	for _, op := range h[:i] {
+	for k, op := range h[:i] {
 		if op.Kind == "imports" {
+			continue
+		}
+		switch skip[k] {
+		case "drop":
+			continue
+		case "raw":
+			h2 = append(h2, hist.Op{Kind: "noformat", F: op.F, Flag: true}, hist.Op{Kind: "render", F: op.F},
+				hist.Op{Kind: "noformat", F: op.F, Flag: noformatAt(h, k, op.F)})
 			continue
 		}
 		h2 = append(h2, conv(op))
@@ -656,6 +1052,14 @@ func c10Judge(h hist.History, info *c10info, got []hist.Obs) string {
 			}
 			return ""
 		}
+		designedFailure := info.skip != nil && info.skip[i] != ""
+		if info.skip != nil && !designedFailure && (o.Kind == "panic" || o.Kind == "fmterr") {
+			// stream after-failed-render: this operation succeeds when the earlier failed call(s)
+			// never happened; whatever makes it fail now was left behind by the failure
+			if tw, ok := c10Twin(h, i, false, info.skip); ok && tw.Kind == "write" {
+				return fmt.Sprintf("%sfails after an earlier call failed, but succeeds when that call never happened (leftovers of the failed call):\n   now   %s\n   alone %s", what, o, tw)
+			}
+		}
 		switch o.Kind {
 		case "panic":
 			if !c10PanicAllowed(info, o.Msg) {
@@ -663,6 +1067,14 @@ func c10Judge(h hist.History, info *c10info, got []hist.Obs) string {
 			}
 			if o.Writes != 0 || o.Out != "" {
 				return fmt.Sprintf("%spanicked after %d Write call(s) carrying %d byte(s): nothing may reach the writer when rendering fails", what, o.Writes, len(o.Out))
+			}
+			if designedFailure {
+				// the generator guarantees that the panicking call could not register an import:
+				// the later operations are judged against the run in which it never happened
+				if d := unchanged("rendering panicked"); d != "" {
+					return d
+				}
+				continue
 			}
 			return unchanged("rendering panicked") // the rest of the history is not meaningful
 
@@ -696,7 +1108,7 @@ func c10Judge(h hist.History, info *c10info, got []hist.Obs) string {
 			if o.Writes != 1 {
 				return fmt.Sprintf("%ssuccess with %d Write calls: exactly one Write must carry the whole output", what, o.Writes)
 			}
-			if d := c10Whole(h, i, op, o.Out); d != "" {
+			if d := c10Whole(h, i, op, o.Out, info.skip); d != "" {
 				return what + d
 			}
 
@@ -719,7 +1131,7 @@ func c10Judge(h hist.History, info *c10info, got []hist.Obs) string {
 			if mustFail {
 				return what + "the file system's error was swallowed: Save returned nil although the target (" + kind + ") cannot be written"
 			}
-			if d := c10Whole(h, i, op, o.Out); d != "" {
+			if d := c10Whole(h, i, op, o.Out, info.skip); d != "" {
 				return what + "content read back after Save: " + d
 			}
 			rel := filepath.FromSlash(op.A)
@@ -745,8 +1157,8 @@ func c10Judge(h hist.History, info *c10info, got []hist.Obs) string {
 // again, in a fresh World, by the same kind of operation into a buffer (for a save: by
 // File.Render); (2) for File.Render/Save with formatting: go/format applied to what an
 // identically built File renders with NoFormat.
-func c10Whole(h hist.History, i int, op hist.Op, out string) string {
-	tw, ok := c10Twin(h, i, false)
+func c10Whole(h hist.History, i int, op hist.Op, out string, skip map[int]string) string {
+	tw, ok := c10Twin(h, i, false, skip)
 	if !ok || tw.Kind != "write" || tw.Failed {
 		return fmt.Sprintf("the same history does not render with a non-failing writer: %s", tw)
 	}
@@ -754,7 +1166,7 @@ func c10Whole(h hist.History, i int, op hist.Op, out string) string {
 		return fmt.Sprintf("not the rendered output:\n   got  %q\n   want %q", out, tw.Out)
 	}
 	if (op.Kind == "render" || op.Kind == "save") && !noformatAt(h, i, op.F) {
-		raw, ok := c10Twin(h, i, true)
+		raw, ok := c10Twin(h, i, true, skip)
 		if !ok || raw.Kind != "write" {
 			return fmt.Sprintf("an identically built File with NoFormat does not render: %s", raw)
 		}
